@@ -21,6 +21,7 @@ import (
 	"os"
 	"path/filepath"
 	"sort"
+	"strconv"
 	"strings"
 
 	"github.com/netflix/rend/handlers/memcached/cluster"
@@ -38,15 +39,16 @@ func (n c19Node) Weight() uint32 { return 1 }
 
 // c19Input is the `desc` of a case and, verbatim, the replay input.
 type c19Input struct {
-	Kind     string   `json:"kind"`               // how the labels were generated
-	Labels   []string `json:"labels"`             // node labels in listed order (Node.Label() = conn.RemoteAddr().String())
-	Perms    [][]int  `json:"perms"`              // further continuums: the listed order re-indexed ([0..n-1] = same list built again)
-	Removals []int    `json:"removals"`           // indices (into labels) of the nodes removed, one at a time
-	Probes   string   `json:"probes"`             // "full": 0, 2^32-1, every base ring point and point+-1; "listed": only the ones below
-	KeySeed  uint64   `json:"key_seed"`           // keys are regenerated from (key_seed, nkeys)
-	NKeys    int      `json:"nkeys"`              //
-	KeysHex  []string `json:"keys_hex,omitempty"` // explicit keys (hex), probed through Continuum.Hash
-	Hashes   []uint32 `json:"hashes,omitempty"`   // explicit ring locations, probed through Continuum.Bucket
+	Kind     string   `json:"kind"`                                   // how the labels were generated
+	Labels   []string `json:"labels"`                                 // node labels in listed order (Node.Label() = conn.RemoteAddr().String())
+	Perms    [][]int  `json:"perms"`                                  // further continuums: the listed order re-indexed ([0..n-1] = same list built again)
+	Removals []int    `json:"removals"`                               // indices (into labels) of the nodes removed, one at a time
+	Screen   []int    `json:"removals_screened_in_go_only,omitempty"` // further removals, observed and screened by the harness only (quick tier, large sets); a finding becomes a reduced case judged by Coq
+	Probes   string   `json:"probes"`                                 // "full": 0, 2^32-1, every base ring point and point+-1; "listed": only the ones below
+	KeySeed  uint64   `json:"key_seed"`                               // keys are regenerated from (key_seed, nkeys)
+	NKeys    int      `json:"nkeys"`                                  //
+	KeysHex  []string `json:"keys_hex,omitempty"`                     // explicit keys (hex), probed through Continuum.Hash
+	Hashes   []uint32 `json:"hashes,omitempty"`                       // explicit ring locations, probed through Continuum.Bucket
 	// informational (ignored on replay)
 	Nodes          int      `json:"nodes"`
 	RingSize       int      `json:"ring_size,omitempty"`
@@ -60,7 +62,7 @@ type c19Input struct {
 type c19Finding struct {
 	what    string // "order", "removal", "lookup", "unsorted", "points"
 	perm    int    // index into in.Perms, or -1
-	removal int    // index into in.Removals, or -1
+	removal int    // index (into labels) of the removed node, or -1
 	h       uint32
 	key     []byte // non-nil when the probe was a key
 }
@@ -102,17 +104,16 @@ func c19Arr(vs []uint64) string {
 	if len(vs) == 0 {
 		return "(PArray.make 0 0)"
 	}
-	var sb strings.Builder
-	sb.Grow(len(vs) * 14)
-	sb.WriteString("[| ")
+	b := make([]byte, 0, len(vs)*14+16)
+	b = append(b, "[| "...)
 	for i, v := range vs {
 		if i > 0 {
-			sb.WriteString("; ")
+			b = append(b, "; "...)
 		}
-		fmt.Fprintf(&sb, "%d", v)
+		b = strconv.AppendUint(b, v, 10)
 	}
-	sb.WriteString(" | 0 |]")
-	return sb.String()
+	b = append(b, " | 0 |]"...)
+	return string(b)
 }
 
 func c19Pack6(ids []int) []uint64 {
@@ -168,14 +169,14 @@ func c19Keys(seed uint64, n int) [][]byte {
 }
 
 type c19Group struct {
-	c        rig.Case
-	in       c19Input
-	findings []c19Finding
-	shareMin float64 // min over nodes of share*n (1.0 = ideal), -1 if no key sample
-	shareMax float64
-	zeroNode string // a node with points and no key of the sample
+	c                     rig.Case
+	in                    c19Input
+	findings              []c19Finding
+	shareMin              float64 // min over nodes of share*n (1.0 = ideal), -1 if no key sample
+	shareMax              float64
+	zeroNode              string // a node with points and no key of the sample
 	nBoundary, nKeyProbes int
-	err      error
+	err                   error
 }
 
 // c19Run runs one node set through the real code and prints the case.
@@ -287,6 +288,35 @@ func c19Run(in c19Input) (g c19Group) {
 		}
 		g.findings = append(g.findings, f)
 	}
+	// first probe satisfying bad, preferring a probe that is a real key
+	pick := func(bad func(i int) bool) int {
+		first := -1
+		for i, h := range hs {
+			if bad(i) {
+				if _, ok := keyOf[h]; ok {
+					return i
+				}
+				if first < 0 {
+					first = i
+				}
+			}
+		}
+		return first
+	}
+	probeName := func(i int) string {
+		if k, ok := keyOf[hs[i]]; ok {
+			return fmt.Sprintf("key %q (h=%d)", k, hs[i])
+		}
+		return fmt.Sprintf("h=%d", hs[i])
+	}
+	distinctLabel := func(id int) string {
+		for l, i := range ids {
+			if i == id {
+				return l
+			}
+		}
+		return "<nil>"
+	}
 	checkRing := func(name string, r []cluster.VerifPoint, own []int, perm, rem int) {
 		for i := 1; i < len(r); i++ {
 			if r[i-1].Point > r[i].Point {
@@ -294,12 +324,11 @@ func c19Run(in c19Input) (g c19Group) {
 				break
 			}
 		}
-		for i, h := range hs {
-			if l, ok := c19Ref(r, h); ok && own[i] != ids[l] {
-				note(c19Finding{what: "lookup", perm: perm, removal: rem, h: h, key: keyOf[h]},
-					"%s: h=%d observed label id %d, first ring entry with point >= h (else entry 0) has label %q (id %d)", name, h, own[i], l, ids[l])
-				break
-			}
+		if i := pick(func(i int) bool { l, ok := c19Ref(r, hs[i]); return ok && own[i] != ids[l] }); i >= 0 {
+			l, _ := c19Ref(r, hs[i])
+			note(c19Finding{what: "lookup", perm: perm, removal: rem, h: hs[i], key: keyOf[hs[i]]},
+				"%s: %s observed label id %d (%q); the first ring entry with point >= h (else entry 0) has label id %d (%q)",
+				name, probeName(i), own[i], distinctLabel(own[i]), ids[l], l)
 		}
 	}
 
@@ -319,16 +348,68 @@ func c19Run(in c19Input) (g c19Group) {
 		}
 	}
 
+	// ---- a larger key sample routed through every continuum, screened here only
+	idOf := func(b cluster.Bucket) int {
+		if b == nil {
+			return c19None
+		}
+		if id, ok := ids[b.Label()]; ok {
+			return id
+		}
+		return 62
+	}
+	var xkeys [][]byte
+	var xown0 []int
+	if in.GoKeys > 0 {
+		xkeys = c19Keys(in.KeySeed^0x5EED5EED, in.GoKeys)
+		xown0 = make([]int, len(xkeys))
+		for j, k := range xkeys {
+			xown0[j] = idOf(base.Hash(k))
+		}
+	}
+	// x < 0: same node set (owners must be equal); x >= 0: label id x removed
+	screenKeys := func(c *cluster.Continuum, x, perm, rem int) (err error) {
+		defer func() {
+			if p := recover(); p != nil {
+				err = fmt.Errorf("panic: %v", p)
+			}
+		}()
+		for j, k := range xkeys {
+			id := idOf(c.Hash(k))
+			if id == xown0[j] || (x >= 0 && xown0[j] == x) {
+				continue
+			}
+			if x < 0 {
+				in.OrderDependent = true
+				note(c19Finding{what: "order", perm: perm, removal: -1, h: c19md5le(k), key: k},
+					"order dependence: key %q goes to label id %d with the nodes as listed and to label id %d with the list re-indexed %v", k, xown0[j], id, in.Perms[perm])
+			} else {
+				note(c19Finding{what: "removal", perm: -1, removal: rem, h: c19md5le(k), key: k},
+					"removal of node #%d (label id %d) moved key %q from label id %d to label id %d", rem, x, k, xown0[j], id)
+			}
+			break
+		}
+		return nil
+	}
+
 	// ---- share of the key sample per node
-	if len(keys) >= 100 {
+	if len(keys) >= 100 || len(xkeys) >= 100 {
 		cnt := map[int]int{}
 		tot := 0
-		for i, h := range hs {
-			if _, ok := keyOf[h]; ok {
-				cnt[own0[i]]++
+		if len(xkeys) > 0 {
+			for _, o := range xown0 {
+				cnt[o]++
 				tot++
 			}
+		} else {
+			for i, h := range hs {
+				if _, ok := keyOf[h]; ok {
+					cnt[own0[i]]++
+					tot++
+				}
+			}
 		}
+		g.shareKeys = tot
 		hasPoints := map[int]bool{}
 		for _, e := range ring0 {
 			hasPoints[ids[e.Label]] = true
@@ -383,24 +464,27 @@ func c19Run(in c19Input) (g c19Group) {
 			g.in = in
 			return
 		}
+		if err == nil {
+			err = screenKeys(c, -1, pi, -1)
+		}
+		if err != nil {
+			g.err = fmt.Errorf("continuum of %q: %v", ls, err)
+			g.in = in
+			return
+		}
 		checkRing(fmt.Sprintf("perm %v", p), r, own, pi, -1)
-		for i := range hs {
-			if own[i] != own0[i] {
-				in.OrderDependent = true
-				note(c19Finding{what: "order", perm: pi, removal: -1, h: hs[i], key: keyOf[hs[i]]},
-					"order dependence: h=%d goes to label id %d with the nodes as listed and to label id %d with the list re-indexed %v", hs[i], own0[i], own[i], p)
-				break
-			}
+		if i := pick(func(i int) bool { return own[i] != own0[i] }); i >= 0 {
+			in.OrderDependent = true
+			note(c19Finding{what: "order", perm: pi, removal: -1, h: hs[i], key: keyOf[hs[i]]},
+				"order dependence: %s goes to label id %d (%q) with the nodes as listed and to label id %d (%q) with the list re-indexed %v",
+				probeName(i), own0[i], distinctLabel(own0[i]), own[i], distinctLabel(own[i]), p)
 		}
 		again = append(again, "("+bd.bind("a", c19Arr(encRing(r)))+", "+bd.bind("a", c19Arr(c19Pack6(own)))+")")
 	}
 
 	// ---- single removals
 	var rems []string
-	for ri, ix := range in.Removals {
-		if ix < 0 || ix >= n {
-			continue
-		}
+	removal := func(ix int, emit bool) error {
 		ls := append(append([]string(nil), in.Labels[:ix]...), in.Labels[ix+1:]...)
 		x := ids[in.Labels[ix]]
 		c, r, err := c19Build(ls)
@@ -409,17 +493,19 @@ func c19Run(in c19Input) (g c19Group) {
 			own, err = observe(c)
 		}
 		if err != nil {
-			g.err = fmt.Errorf("continuum of %q: %v", ls, err)
-			g.in = in
-			return
+			return fmt.Errorf("continuum of %q: %v", ls, err)
 		}
-		checkRing(fmt.Sprintf("removal of #%d", ix), r, own, -1, ri)
-		for i := range hs {
-			if own0[i] != x && own[i] != own0[i] {
-				note(c19Finding{what: "removal", perm: -1, removal: ri, h: hs[i], key: keyOf[hs[i]]},
-					"removal of node #%d (label id %d) moved h=%d from label id %d to label id %d", ix, x, hs[i], own0[i], own[i])
-				break
-			}
+		if err := screenKeys(c, x, -1, ix); err != nil {
+			return fmt.Errorf("continuum of %q: %v", ls, err)
+		}
+		checkRing(fmt.Sprintf("removal of #%d", ix), r, own, -1, ix)
+		if i := pick(func(i int) bool { return own0[i] != x && own[i] != own0[i] }); i >= 0 {
+			note(c19Finding{what: "removal", perm: -1, removal: ix, h: hs[i], key: keyOf[hs[i]]},
+				"removal of node #%d (label id %d, %q) moved %s from label id %d (%q) to label id %d (%q)",
+				ix, x, in.Labels[ix], probeName(i), own0[i], distinctLabel(own0[i]), own[i], distinctLabel(own[i]))
+		}
+		if !emit {
+			return nil
 		}
 		// ring literally equal to the base ring without x's entries?  then it is written as None
 		minus := make([]cluster.VerifPoint, 0, len(ring0))
@@ -437,6 +523,27 @@ func c19Run(in c19Input) (g c19Group) {
 			rt = "(Some " + bd.bind("a", c19Arr(encRing(r))) + ")"
 		}
 		rems = append(rems, fmt.Sprintf("(%d, %s, %s)", x, rt, bd.bind("a", c19Arr(c19Pack6(own)))))
+		return nil
+	}
+	for _, ix := range in.Removals {
+		if ix < 0 || ix >= n {
+			continue
+		}
+		if err := removal(ix, true); err != nil {
+			g.err = err
+			g.in = in
+			return
+		}
+	}
+	for _, ix := range in.Screen {
+		if ix < 0 || ix >= n {
+			continue
+		}
+		if err := removal(ix, false); err != nil {
+			g.err = err
+			g.in = in
+			return
+		}
 	}
 
 	var sb strings.Builder
@@ -445,8 +552,8 @@ func c19Run(in c19Input) (g c19Group) {
 		sb.WriteString(l)
 		sb.WriteString("\n   ")
 	}
-	fmt.Fprintf(&sb, "(%s, (%s, %s),\n    %s,\n    %s,\n    (%v, %v)))", c19Arr(hsv), r0name, o0name,
-		c19List(again), c19List(rems), in.DupPoint, in.Collision)
+	fmt.Fprintf(&sb, "(%s, (%s, %s),\n    %s,\n    %s,\n    (%v, %v, %v)))", c19Arr(hsv), r0name, o0name,
+		c19List(again), c19List(rems), in.DupPoint, in.Collision, in.Probes == "full")
 
 	var tags []string
 	if in.Collision {
@@ -618,7 +725,7 @@ func c19(e *env) {
 					ri.Perms = [][]int{in.Perms[f.perm]}
 				}
 				if f.removal >= 0 {
-					ri.Removals = []int{in.Removals[f.removal]}
+					ri.Removals = []int{f.removal}
 				}
 				if f.key != nil {
 					ri.KeysHex = []string{hex.EncodeToString(f.key)}
@@ -653,9 +760,11 @@ func c19(e *env) {
 		run(in, false)
 	} else {
 		kinds := []string{"ipv4", "ipv4-seq", "ports", "ipv6", "odd", "dup"}
-		nkeys, allUpTo, nrandom, setsPer := 1000, 4, 2, 1
+		nkeys, gokeys, allUpTo, nrandom, setsPer := 1000, 5000, 4, 2, 1
 		if thorough {
-			nkeys, allUpTo, nrandom, setsPer = 100000, 5, 8, 3
+			// 10^5 keys per set are routed through every continuum and screened by the harness; the
+			// Coq-judged part of each case carries 2000 of them, and three sizes carry all 10^5 (below)
+			nkeys, gokeys, allUpTo, nrandom, setsPer = 2000, 100000, 5, 8, 1
 		}
 		for n := 1; n <= 32; n++ {
 			for s := 0; s < setsPer; s++ {
@@ -672,11 +781,24 @@ func c19(e *env) {
 				for i := range rm {
 					rm[i] = i
 				}
-				nk := nkeys
-				if thorough && s > 0 {
-					nk = 5000 // the 10^5-key sample once per size
+				var screen []int
+				if !thorough && n > 12 {
+					// quick tier: every removal is observed and screened by the harness; Coq judges
+					// the removal of the first, the last and four random nodes (and every finding)
+					pickd := map[int]bool{0: true, n - 1: true}
+					for len(pickd) < 6 {
+						pickd[r.Intn(n)] = true
+					}
+					rm = rm[:0]
+					for i := 0; i < n; i++ {
+						if pickd[i] {
+							rm = append(rm, i)
+						} else {
+							screen = append(screen, i)
+						}
+					}
 				}
-				in := c19Input{Kind: kind, Labels: ls, Perms: perms, Removals: rm, Probes: "full", KeySeed: r.U64(), NKeys: nk}
+				in := c19Input{Kind: kind, Labels: ls, Perms: perms, Removals: rm, Screen: screen, Probes: "full", KeySeed: r.U64(), NKeys: nkeys, GoKeys: gokeys}
 				g := run(in, true)
 				if g.err != nil {
 					continue
@@ -690,8 +812,25 @@ func c19(e *env) {
 				}
 				w.CountN("probes:ring-boundary(0,max,point,point+-1)", g.nBoundary)
 				w.CountN("probes:key-through-Hash", g.nKeyProbes)
+				w.CountN("probes:key-through-Hash(screened-by-harness-only,every-continuum)", gokeys)
 				w.CountN("continuums:permuted-or-rebuilt", len(perms))
-				w.CountN("continuums:one-node-removed", len(rm))
+				w.CountN("continuums:one-node-removed(judged-by-model-and-oracle-in-Coq)", len(rm))
+				w.CountN("continuums:one-node-removed(screened-by-harness-only)", len(screen))
+			}
+		}
+		if thorough {
+			for _, n := range []int{2, 8, 32} {
+				ls := c19Labels(r, "ipv4", n)
+				id := make([]int, n)
+				rev := make([]int, n)
+				for i := range id {
+					id[i], rev[i] = i, n-1-i
+				}
+				g := run(c19Input{Kind: "ipv4/key-sample", Labels: ls, Perms: [][]int{id, rev}, Removals: []int{0, n - 1}, Probes: "listed",
+					KeySeed: r.U64(), NKeys: 100000}, true)
+				w.Count("labels=ipv4/key-sample-1e5")
+				w.Count("nodes=" + c19Bucket(n))
+				w.CountN("probes:key-through-Hash", g.nKeyProbes)
 			}
 		}
 		// small odd / duplicate-label sets with every permutation
@@ -715,32 +854,33 @@ func c19(e *env) {
 			ncoll = 6
 		}
 		var collInfo []string
-		for k := 0; k < ncoll; k++ {
+		sawOrder := false
+		for k := 0; k < ncoll || (!sawOrder && k < 3*ncoll); k++ {
 			a, b, p, ok := c19FindCollision(r)
 			if !ok {
 				break
 			}
 			collInfo = append(collInfo, fmt.Sprintf("%q and %q share point %d", a, b, p))
+			ls := []string{a, b}
+			if k%2 == 1 {
+				extra := c19Labels(r, "ipv4", 2)
+				ls = []string{a, extra[0], b, extra[1]}
+			}
 			// a key that hashes into the arc ending at the shared point
 			var keyhex []string
-			_, ring, _ := c19Build([]string{a, b})
+			_, ring, _ := c19Build(ls)
 			prev := uint32(0)
 			for _, e := range ring {
 				if e.Point < p && e.Point > prev {
 					prev = e.Point
 				}
 			}
-			for i := 0; i < 2000000; i++ {
+			for i := 0; i < 5000000; i++ {
 				key := []byte(fmt.Sprintf("key-%d", i))
 				if h := c19md5le(key); h > prev && h <= p {
 					keyhex = append(keyhex, hex.EncodeToString(key))
 					break
 				}
-			}
-			ls := []string{a, b}
-			if k%2 == 1 {
-				extra := c19Labels(r, "ipv4", 2)
-				ls = []string{a, extra[0], b, extra[1]}
 			}
 			perms, _ := c19Perms(r, len(ls), 5, 0)
 			rm := make([]int, len(ls))
@@ -751,7 +891,7 @@ func c19(e *env) {
 				KeySeed: r.U64(), NKeys: 200, KeysHex: keyhex}, true)
 			w.Count("labels=directed-collision")
 			w.Count("nodes=" + c19Bucket(len(ls)))
-			_ = g
+			sawOrder = sawOrder || g.in.OrderDependent
 		}
 		w.Res.Stats["directed_collisions"] = collInfo
 		c19Survey(w, r)
@@ -762,7 +902,7 @@ func c19(e *env) {
 	ncollision, norder := 0, 0
 	var collSets []interface{}
 	for _, g := range groups {
-		if g.shareMin >= 0 && g.in.NKeys >= 1000 {
+		if g.shareMin >= 0 && g.shareKeys >= 1000 {
 			if smin < 0 || g.shareMin < smin {
 				smin = g.shareMin
 			}
@@ -770,8 +910,8 @@ func c19(e *env) {
 				smax = g.shareMax
 			}
 		}
-		if g.zeroNode != "" && g.in.NKeys >= 1000 {
-			w.Fail(rig.GoFailure{Kind: "counterexample", What: fmt.Sprintf("node %q has ring points but received no key of a %d-key sample", g.zeroNode, g.in.NKeys),
+		if g.zeroNode != "" && g.shareKeys >= 1000 {
+			w.Fail(rig.GoFailure{Kind: "counterexample", What: fmt.Sprintf("node %q has ring points but received no key of a %d-key sample", g.zeroNode, g.shareKeys),
 				Input: g.in, Detail: "every node must receive a share of a large key sample"})
 		}
 		if g.in.Collision {
@@ -786,7 +926,7 @@ func c19(e *env) {
 	}
 	w.Res.Stats["share_x_nodes_min"] = smin
 	w.Res.Stats["share_x_nodes_max"] = smax
-	w.Res.Stats["share_note"] = "share of the key sample per node times the number of nodes (1.0 = equal shares), min/max over all nodes of all sets with >= 1000 keys"
+	w.Res.Stats["share_note"] = "share of the key sample per node times the number of nodes (1.0 = equal shares), min/max over all nodes of all sets measured on >= 1000 keys (quick: 5000 keys per set, thorough: 10^5)"
 	w.Res.Stats["sets_where_two_labels_share_a_point"] = ncollision
 	w.Res.Stats["sets_with_order_dependence_observed"] = norder
 	w.Res.Stats["example_sets_with_shared_point"] = collSets
@@ -795,7 +935,7 @@ func c19(e *env) {
 		w.Add(g.c)
 	}
 	w.Res.Rule = "a node set counts as non-trivial when it has >= 2 nodes and was probed at ring points and point+-1 (all cases generated with probes=full and n >= 2); distinct = distinct observed (rings, owners) tuples"
-	if err := c19Finish(w, 8); err != nil {
+	if err := c19Finish(w, 12); err != nil {
 		rig.Die("%v", err)
 	}
 }
